@@ -966,3 +966,51 @@ Definition classify (I : inst) (bs : list batch) (s : sol) (d : dispatch) (x : d
   else if k3_mapping I bs s u then VK3
   else if k4_event I d w u || k4_any I bs s u then VK4
   else VUnclassified.
+
+(** * C05 on multi-variant request classes: check of a placement decision
+
+    The row-system model above covers single-variant classes.  For classes with several variants (each
+    with its own resources and [min_time]) the model does not rebuild the rows; it CHECKS the decision of
+    the implementation, placement by placement, against the filter under which [run_scheduling_solver]
+    may create the placement variable x[w, rq, variant]:
+    [!worker.is_request_blocked(rq, variant) && worker.has_time_to_run(variant.min_time(), now)
+     && worker.have_immediate_resources_for_rq(variant)], and against overbooking of the worker. *)
+
+Record variant := { v_entries : request; v_min_time : N }.
+Record vworker := { vw_id : N; vw_free : rvec; vw_term : option N; vw_blocked : list (N * N) }.
+
+Definition variant_of (classes : list (list variant)) (rq vi : N) : option variant :=
+  nth_error (nth (N.to_nat rq) classes []) (N.to_nat vi).
+
+Inductive verror := VNoVariant | VBlocked | VNoTime | VNoResources.
+
+(** errors of one placement of (class [rq], variant [vi]) on [w] *)
+Definition vplace_errors (now : N) (classes : list (list variant)) (w : vworker) (rq vi : N) : list verror :=
+  match variant_of classes rq vi with
+  | None => [VNoVariant]
+  | Some v =>
+      (if existsb (fun p => (fst p =? rq) && (snd p =? vi)) (vw_blocked w) then [VBlocked] else [])
+      ++ (match vw_term w with
+          | Some t => if now + v_min_time v <=? t then [] else [VNoTime]
+          | None => []
+          end)
+      ++ (if capable_res (vw_free w) (v_entries v) then [] else [VNoResources])
+  end.
+
+(** free resources after the placements [(rq, variant)] on one worker; [None] = overbooked *)
+Fixpoint vfree_after (classes : list (list variant)) (free : rvec) (ps : list (N * N)) : option rvec :=
+  match ps with
+  | [] => Some free
+  | (rq, vi) :: t =>
+      match variant_of classes rq vi with
+      | Some v => match rv_sub_checked free (v_entries v) with
+                  | Some f => vfree_after classes f t
+                  | None => None
+                  end
+      | None => None
+      end
+  end.
+
+Definition vdecision_ok (now : N) (classes : list (list variant)) (w : vworker) (ps : list (N * N)) : bool :=
+  forallb (fun p => match vplace_errors now classes w (fst p) (snd p) with [] => true | _ => false end) ps
+  && match vfree_after classes (vw_free w) ps with Some _ => true | None => false end.
